@@ -755,7 +755,48 @@ def r10_10(ctx):
     ctx.floor(n, 2, "stop() methods with a final new line")
 
 
-RULES = [r10_1, r10_2, r10_3, r10_4, r10_5, r10_6, r10_7, r10_8, r10_9, r10_10]
+def r10_11(ctx):
+    ctx.rule("R10.11", "update(..., refresh=True) redraws: in Live.update and Progress.update every path to a normal exit on which the `refresh` argument is true passes the call self.refresh() - no early return in front of it (a 'nothing changed' shortcut skips the redraw of an object that was mutated in place and leaves a stale frame on screen)")
+    n = 0
+    for spec in ("live:Live", "progress:Progress"):
+        f = ctx.repo.cls(spec).method("update")
+        if f is None:
+            raise AnchorVanished(f"{spec}.update not found")
+        if "refresh" not in f.params and "refresh" not in [a.arg for a in f.node.args.kwonlyargs]:
+            raise AnalysisError(f"{spec}.update has no `refresh` parameter")
+        m = f.module
+        g = cfgmod.build(f.node)
+        calls = {nd.id for nd in g.stmt_nodes() if nd.kind == "stmt" and nd.stmt is not None and not isinstance(nd.stmt, (ast.With, ast.Try, ast.If, ast.For, ast.While)) and any(isinstance(c, ast.Call) and norm(c.func) == "self.refresh" for c in ast.walk(nd.stmt))}
+        tests = {nd.id for nd in g.nodes if nd.kind == "test" and nd.expr is not None and norm(nd.expr) == "refresh"}
+        if not calls:
+            ctx.violation(f.fq, "self.refresh()", f.where, f"{spec.split(':')[1]}.update never calls self.refresh(): refresh=True has no effect")
+            continue
+        # search: entry -> exit, avoiding the refresh calls, never leaving a `refresh` test through its False edge
+        seen, stack, prev = {g.entry}, [g.entry], {}
+        while stack:
+            a = stack.pop()
+            for b in g.succ[a]:
+                if b in calls or b in seen:
+                    continue
+                if a in tests and g.label.get((a, b)) is False:
+                    continue
+                seen.add(b)
+                prev[b] = a
+                stack.append(b)
+        n += 1
+        if g.exit in seen:
+            path_ = [g.exit]
+            while path_[-1] in prev:
+                path_.append(prev[path_[-1]])
+            path_.reverse()
+            rets = [g.nodes[i] for i in path_ if g.nodes[i].kind == "stmt" and isinstance(g.nodes[i].stmt, ast.Return)]
+            ctx.violation(f.fq, short(rets[0].stmt) if rets else "fall through", f"{m.relpath}:{rets[0].lineno if rets else f.node.lineno}", f"{spec.split(':')[1]}.update can finish without self.refresh() although refresh=True was passed: after update(table, refresh=True) with a table that was extended in place the old frame stays on screen", g.describe_path(path_))
+        else:
+            ctx.ok(f.where, f"{spec.split(':')[1]}.update: refresh=True always reaches self.refresh()", f.fq)
+    ctx.floor(n, 2, "update() methods analysed")
+
+
+RULES = [r10_1, r10_2, r10_3, r10_4, r10_5, r10_6, r10_7, r10_8, r10_9, r10_10, r10_11]
 
 
 def _xcheck(ctx):
